@@ -54,6 +54,11 @@ CALLS = {
     "dry:normalize": ("execute", {"corrections_only": True}),
     "atomic:C2": ("atomic", {"content": C2}),
     "atomic:RAW": ("atomic", {"content": NONCANON}),
+    # the CLI `octave write F --content .. | --changes .. [--base-hash H]`
+    "cli-content:C1": ("cli", {"content": C1}),
+    "cli-content:C2": ("cli", {"content": C2}),
+    "cli-changes:CH1": ("cli", {"changes": CH1}),
+    "cli-changes:CH2": ("cli", {"changes": CH2}),
 }
 PIPE_OF = {"dry:C2": "content:C2", "dry:CH1": "changes:CH1", "dry:normalize": "normalize"}
 MODE_OF = {"content": "content", "changes": "changes", "normalize": "normalize", "dry": None, "atomic": "atomic"}
@@ -62,6 +67,9 @@ EXTS = {
     "ext:C1": (C1, 0o664), "ext:empty": ("", 0o644), "ext:delete": None,
 }
 BASES = ("none", "current", "stale", "future")
+BASES5 = BASES + ("garbage",)
+CLI_OPS = ("cli-content:C1", "cli-content:C2", "cli-changes:CH1", "cli-changes:CH2")
+META_ERRNOS = c16.META_ERRNOS
 
 
 def model_mode(opkey):
@@ -115,6 +123,7 @@ def _job_hist(fi, job):
         return texts.index(t)
     seen = []
     steps = []
+    last_base = None
     for st in job["steps"]:
         before = _snap(root)
         cur = before.get(rel)
@@ -147,16 +156,27 @@ def _job_hist(fi, job):
             elif bk == "future":
                 fut = _G["future"].get(PIPE_OF.get(st["op"], st["op"]), {})
                 base = fut.get("absent" if cur_text is None else sha(cur_text)) or sha("no future content")
+            elif bk == "garbage":
+                base = "not-a-sha256-" + "0" * 20
+            elif bk == "same":
+                base = last_base
+            last_base = base
             if base is not None:
                 kw["base_hash"] = base
             rec["base"] = base
             plan.trace = []
             plan.k = 0
+            plan.name_count = {}
+            plan.fail_named = {}
+            if st.get("fault"):
+                plan.fail_named = {(st["fault"]["name"], int(st["fault"]["occ"])): int(st["fault"]["errno"])}
             try:
                 plan.enabled = True
                 try:
                     if api == "atomic":
                         r = atomic_write_octave(target, kw["content"], kw.get("base_hash"))
+                    elif api == "cli":
+                        r = c16._call_cli(target, kw)
                     else:
                         r = asyncio.run(tool.execute(target_path=target, **kw))
                 finally:
@@ -165,6 +185,12 @@ def _job_hist(fi, job):
             except BaseException as e:  # noqa: BLE001
                 rec["env"] = {"status": "raised", "code": type(e).__name__, "hash": ""}
             rec["unexpected"] = [n for n, _ in plan.trace if n.startswith("UNEXPECTED")]
+            cnt = {}
+            rec["meta_ops"] = []
+            for n, _ in plan.trace:
+                if c16.is_meta_op(n):
+                    rec["meta_ops"].append([n, cnt.get(n, 0)])
+                    cnt[n] = cnt.get(n, 0) + 1
         after = _snap(root)
         a = after.get(rel)
         rec["after"] = tid(a) if a and a[0] == "F" else None
@@ -378,10 +404,14 @@ def hist_model_line(init, steps, rec):
     texts = rec["texts"]
     used = set(["", OLD])
     ops = []
-    for st, r in zip(steps, rec["steps"]):
+    kept = []
+    for si, (st, r) in enumerate(zip(steps, rec["steps"])):
         cur = None if r["cur"] is None else texts[r["cur"]]
         if cur is not None:
             used.add(cur)
+        if st.get("fault") and r["env"]["status"] != "success":
+            continue      # a call that FAILED under an injected fault is a no-op of the register (the judge checks that it is)
+        kept.append(si)
         if st["op"].startswith("ext:"):
             e = EXTS[st["op"]]
             if e is None:
@@ -396,6 +426,18 @@ def hist_model_line(init, steps, rec):
         if api == "atomic":
             used.add(kw["content"])
             ops.append(f"A:{enc_str(kw['content'])}:{btok}")
+            continue
+        if api == "cli":
+            # the CLI is its pre-phase (pin_cli_sites: exists / read_text / parse / apply, BEFORE any hash check) followed by
+            # atomic_write_octave(file, canonical, base_hash)
+            canon = _PIPE[st["op"]].get(cur, None)
+            if "changes" in kw and cur is None:
+                ops.append("X:changes:~=~:~:0")                       # E_FILE
+            elif canon is None:
+                ops.append(f"X:changes:{'~' if cur is None else enc_str(cur)}=~:~:0")     # the pipeline refuses first: E_PIPE
+            else:
+                used.add(canon)
+                ops.append(f"A:{enc_str(canon)}:{btok}")
             continue
         pk = PIPE_OF.get(st["op"], st["op"])
         canon = _PIPE[pk].get(cur, None)
@@ -413,7 +455,7 @@ def hist_model_line(init, steps, rec):
     chain = ["/s/" + "/".join(parts[: i + 1]) for i in range(len(parts))]
     ht = ",".join(enc_str(x) + "=" + enc_str(sha(x)) for x in sorted(used))
     return " ".join(["hist", enc_str("/s/" + init["target"]), enc_str("/s/" + par), ",".join(enc_str(c) for c in chain),
-                     enc_str("/s/" + par + "/TMPFILE.tmp"), "4", ht, ";".join(fs) or "-"] + ops)
+                     enc_str("/s/" + par + "/TMPFILE.tmp"), "4", ht, ";".join(fs) or "-"] + ops), kept
 
 
 def parse_hist(out):
@@ -485,7 +527,7 @@ def judge_hist(init, steps, rec):
                 out.append((f"cas-stale-changed: step {i} ({st['op']}) base_hash mismatch, status={env['status']} but the file bytes changed", None))
             elif env["status"] == "error" and env["code"] != "E_HASH":
                 pk = PIPE_OF.get(st["op"], st["op"])
-                if pk.startswith("atomic") or _PIPE[pk].get(cur) is not None:
+                if pk.startswith("atomic") or _PIPE[pk].get(cur) is not None:     # (CLI: parse/apply precede the hash check)
                     out.append((f"cas-stale-code: step {i} ({st['op']}) base_hash mismatch reported as {env['code']} instead of E_HASH", None))
         # (b) dry calls and error returns leave the whole sandbox exactly as it was
         if (dry or env["status"] == "error") and not r["same"]:
@@ -501,7 +543,7 @@ def _hist_chunk(task):
     """worker: run a chunk of histories, compare with the model, judge.  Returns a compact summary."""
     chunk, have_model = task
     from lib.model import run_driver
-    summ = {"steps": 0, "hist": 0, "prop": [], "corr": [], "h": {}, "keys": [], "samples": []}
+    summ = {"steps": 0, "hist": 0, "prop": [], "corr": [], "h": {}, "keys": [], "samples": [], "meta": []}
 
     def h(name, b, n=1):
         summ["h"].setdefault(name, {})
@@ -515,6 +557,8 @@ def _hist_chunk(task):
             summ["corr"].append((case, f"harness: child exit {code}: {str(err)[-400:]}"))
             continue
         case["observed"] = [{"env": r["env"], "base": r["base"], "same": r["same"]} for r in rec["steps"]]
+        if rec["steps"] and rec["steps"][0].get("meta_ops") and len(steps) == 1 and isinstance(init_name, str):
+            summ["meta"].append((init_name, steps[0], rec["steps"][0]["meta_ops"]))
         summ["hist"] += 1
         summ["steps"] += len(steps)
         summ["keys"].append(hashlib.blake2b(json.dumps([init_name, steps], sort_keys=True, default=str).encode(), digest_size=10).hexdigest())
@@ -522,6 +566,8 @@ def _hist_chunk(task):
         h("init", init_name if isinstance(init_name, str) else "custom")
         for st, r in zip(steps, rec["steps"]):
             h("op", st["op"])
+            if st.get("fault"):
+                h("fault", st["fault"]["name"] + ":" + c16.ALL_ERRNO_NAMES.get(st["fault"]["errno"], str(st["fault"]["errno"])))
             if not st["op"].startswith("ext:"):
                 h("base", st["base"])
                 h("result", r["env"]["status"] + (":" + r["env"]["code"] if r["env"]["status"] == "error" else ""))
@@ -533,16 +579,18 @@ def _hist_chunk(task):
             summ["samples"].append({"init": init_name if isinstance(init_name, str) else "custom target " + init["target"][:12] + "...(%d chars)" % len(init["target"]), "steps": [s["op"] + "/" + str(s.get("base")) for s in steps],
                                     "results": [list(env_tuple(r["env"]))[:1] + [env_tuple(r["env"])[1][:12]] for r in rec["steps"]]})
         if have_model and isinstance(init_name, str):
-            lines.append(hist_model_line(init, steps, rec))
-            metas.append((case, init, steps, rec))
+            line, kept = hist_model_line(init, steps, rec)
+            if kept:
+                lines.append(line)
+                metas.append((case, init, steps, rec, kept))
     if lines:
         outs = run_driver("fsw", lines)
-        for o, (case, init, steps, rec) in zip(outs, metas):
+        for o, (case, init, steps, rec, kept) in zip(outs, metas):
             m = parse_hist(o)
             if m is None:
                 summ["corr"].append((case, f"model driver answered {o[:200]}"))
                 continue
-            real = [env_tuple(r["env"]) for r in rec["steps"]]
+            real = [env_tuple(rec["steps"][i]["env"]) for i in kept]
             bad = []
             if real != m["impl"]:
                 bad.append(f"envelopes: impl {real} protocol-model {m['impl']}")
@@ -612,7 +660,7 @@ def _sched_task(task):
 # ---- generation -------------------------------------------------------------------------------------------------
 POOL_EXH = ([(k, b) for k in ("content:C1", "changes:CH1", "normalize", "dry:C2") for b in BASES]
             + [("ext:noncanon", None), ("ext:C1", None)])
-POOL_RND = ([(k, b) for k in CALLS for b in BASES] + [(k, None) for k in EXTS])
+POOL_RND = ([(k, b) for k in CALLS for b in BASES5] + [(k, None) for k in EXTS])
 
 
 def mkstep(p):
@@ -622,7 +670,7 @@ def mkstep(p):
 def oracle_closure(ctx):
     """PIPE[opkey][state] = canonical text (None = pipeline refuses), over the closure of reachable file contents.
     Each entry is one fault-free run of the real implementation in a scratch sandbox (no base_hash, not dry)."""
-    pipe_keys = ["content:C1", "content:C2", "changes:CH1", "changes:CH2", "normalize"]
+    pipe_keys = ["content:C1", "content:C2", "changes:CH1", "changes:CH2", "normalize"] + list(CLI_OPS)
     states = [None, OLD, NONCANON, BROKEN_FILE, FRONT, C1, C2, ""]
     for k in pipe_keys:
         _PIPE[k] = {}
@@ -743,7 +791,7 @@ def _run(ctx, pool):
             elif r < 0.60:
                 steps.append(mkstep(rng.choice(POOL_EXH[:16])))
             else:
-                steps.append(mkstep((rng.choice(list(CALLS)), rng.choice(BASES))))
+                steps.append(mkstep((rng.choice(list(CALLS)), rng.choice(BASES5))))
         hs.append((rng.choice(inits), steps))
     csize = 40 if ctx.quick() else 250
     chunks = [(hs[i:i + csize], have_model) for i in range(0, len(hs), csize)]
